@@ -69,7 +69,7 @@ pub fn run_c07(ctx: &mut Ctx) {
         late_pm: 250,
         ..Profile::base(sim::M_C07)
     };
-    let n = ctx.n(20_000, 600_000);
+    let n = ctx.n(20_000, 2_000_000);
     ctx.cases("conversations", n, |ctx, case, rng| {
         let mech = Mech::ShortTerm(*rng.pick(&[None, None, Some(false), Some(true)]));
         let cfg = gen_cfg(rng, Some(mech), &[10]);
@@ -96,7 +96,7 @@ pub fn run_c08(ctx: &mut Ctx) {
         rich_app: true,
         ..Profile::base(sim::M_C08)
     };
-    let n = ctx.n(20_000, 600_000);
+    let n = ctx.n(20_000, 2_000_000);
     ctx.cases("conversations", n, |ctx, case, rng| {
         let cfg = gen_cfg(rng, Some(Mech::LongTerm), &[10]);
         // scripted prefixes reach the deep states often: 401 -> (good) -> (438) ...
@@ -132,7 +132,7 @@ pub fn run_c13(ctx: &mut Ctx) {
         rich_app: true,
         ..Profile::base(sim::M_C13)
     };
-    let n = ctx.n(15_000, 500_000);
+    let n = ctx.n(15_000, 1_500_000);
     ctx.cases("histories", n, |ctx, case, rng| {
         let cfg = gen_cfg(rng, None, &[10]);
         let algs = rng.below(5) as u8;
@@ -191,7 +191,7 @@ fn fp_accepted(bytes: &[u8], key: Option<&stun_rs::HMACKey>) -> Result<(bool, bo
 
 fn c10_codec(ctx: &mut Ctx) {
     let cfg = GenCfg { max_blob: 48 };
-    let n = ctx.n(5_000, 120_000);
+    let n = ctx.n(5_000, 400_000);
     ctx.cases("codec-faults", n, |ctx, case, rng| {
         let nattrs = rng.below(4) as usize;
         let mut attrs: Vec<LAttr> = (0..nattrs)
@@ -286,7 +286,7 @@ pub fn run_c10(ctx: &mut Ctx) {
         w_indication: 8,
         ..Profile::base(sim::M_C10)
     };
-    let n = ctx.n(15_000, 500_000);
+    let n = ctx.n(15_000, 1_500_000);
     ctx.cases("client", n, |ctx, case, rng| {
         let mut cfg = gen_cfg(rng, None, &[10]);
         cfg.fingerprint = true;
